@@ -10,12 +10,18 @@
     the static empty string when absent or containing a byte ≥ 0x80; cursor right after the line.
   * `c07_core`: `respCore` is those stages followed by the header block.
   * `c07_line_unique`: the decomposition is unique.
+  * `c07_accept_iff` / `c07_accept_fields`: a response is accepted ⇔ status line ⧺ a header block of
+    the block grammar.
+  * `c07_response_default_iff` / `c07_response_default_result`: under the default configuration the
+    block is a list of at most `cap` header lines of the default grammar (`HLine.ok`, C08) and an
+    empty line; the fields and headers are those of the decomposition.
 -/
 import Hx.Spec.Grammar
 import Hx.Parse.Lines
 import Hx.Lemmas.StartGrammar
 import Hx.Lemmas.BlockGrammar
 import Hx.Lemmas.WholeMessage
+import Hx.Lemmas.EndToEnd
 namespace Hx
 
 theorem c07_line_iff (multi : Bool) (buf : List Byte) (v code : Nat) (r : Str) (c : Cur) :
@@ -66,6 +72,32 @@ theorem c07_accept_fields (be : Backend) (hbe : be.Exact) (cfg : Config) (cap : 
     (respCore be cfg cap buf v₀).val =
       ⟨some v, some (codeValue d₁ d₂ d₃), some (reportedReason (pre.length + 8 + sp₁.length + 3 + ro) reason)⟩ :=
   respCore_ok_fields be hbe cfg cap buf v₀ hl hb' hblk
+
+/-- default configuration, whole response: accepted ⇔ status line of the grammar, then at most `cap`
+header lines of the default grammar, then an empty line; `n` is the total length -/
+theorem c07_response_default_iff (be : Backend) (hbe : be.Exact) (cap : Nat) (buf : List Byte) (v₀ : RespVal)
+    (n : Nat) :
+    (respCore be Config.default cap buf v₀).status = .ok n ↔
+      ∃ (pre : List Byte) (v : Nat) (sp₁ : List Byte) (d₁ d₂ d₃ : Byte) (tail : List Byte) (ro : Nat)
+        (reason : Option (List Byte)) (lines : List HLine) (eol' rest : List Byte),
+        IsStatusLine false pre v sp₁ d₁ d₂ d₃ tail ro reason ∧ (∀ l ∈ lines, l.ok) ∧ IsEol eol' ∧
+        lines.length ≤ cap ∧
+        buf = statusLineBytes pre v sp₁ d₁ d₂ d₃ tail ++ (lines.map HLine.bytes).flatten ++ eol' ++ rest ∧
+        n = (statusLineBytes pre v sp₁ d₁ d₂ d₃ tail ++ (lines.map HLine.bytes).flatten ++ eol').length :=
+  respCore_default_iff be hbe cap buf v₀ n
+
+/-- and then version/code/reason/headers are exactly those of the decomposition -/
+theorem c07_response_default_result (be : Backend) (hbe : be.Exact) (cap : Nat) (buf : List Byte) (v₀ : RespVal)
+    {pre sp₁ tail eol' rest : List Byte} {v ro : Nat} {d₁ d₂ d₃ : Byte} {reason : Option (List Byte)}
+    {lines : List HLine}
+    (hl : IsStatusLine false pre v sp₁ d₁ d₂ d₃ tail ro reason) (hok : ∀ l ∈ lines, l.ok) (he : IsEol eol')
+    (hcap : lines.length ≤ cap)
+    (hbuf : buf = statusLineBytes pre v sp₁ d₁ d₂ d₃ tail ++ (lines.map HLine.bytes).flatten ++ eol' ++ rest) :
+    (respCore be Config.default cap buf v₀).val =
+      ⟨some v, some (codeValue d₁ d₂ d₃), some (reportedReason (pre.length + 8 + sp₁.length + 3 + ro) reason)⟩ ∧
+    (respCore be Config.default cap buf v₀).hdrs =
+      linesHeaders (statusLineBytes pre v sp₁ d₁ d₂ d₃ tail).length lines :=
+  respCore_default_result be hbe cap buf v₀ hl hok he hcap hbuf
 
 /-- non-vacuity: `HTTP/1.1 200 OK\r\n` -/
 example : IsStatusLine false [] 1 [SP] 0x32 0x30 0x30 (SP :: [] ++ [0x4F, 0x4B] ++ [CR, LF]) 1 (some [0x4F, 0x4B]) :=
